@@ -370,6 +370,42 @@ theorem star_round_robin_terminates (g : Star) (pre : List Nat) :
     allDone g (runSched g .star (pre ++ roundRobin g.workers.length (2 * g.nodes.length)) {}) = true :=
   ⟨roundRobin_length _ _, star_terminates_uniform g pre _ fun _ hw => roundRobin_count hw _⟩
 
+/-- … and the usual notion of a schedule without starvation: the schedule is a sequence of rounds (of any length
+and order, with repetitions), every round contains every worker of the graph at least once, and there are at least
+`2·|nodes|` rounds. -/
+theorem star_terminates_rounds (g : Star) (pre : List Nat) (rounds : List (List Nat))
+    (hlen : 2 * g.nodes.length ≤ rounds.length)
+    (hall : ∀ r ∈ rounds, ∀ w, w < g.workers.length → w ∈ r) :
+    allDone g (runSched g .star (pre ++ rounds.flatten) {}) = true :=
+  star_terminates_uniform g pre _ fun w hw => by
+    have := count_flatten_ge (w := w) rounds (fun r hr => hall r hr w hw)
+    omega
+
+/-- **every schedule is as good as a short one** (no assumption): for every schedule there is a sub-schedule — the
+slices not spent on done workers, in the same order — of at most `2·|workers|·|nodes|` slices, none of them wasted,
+that ends in literally the same state (same executions in the same order, same registers). -/
+theorem star_every_schedule_short (g : Star) (sched : List Nat) :
+    ∃ short : List Nat, short.Sublist sched ∧ short.length ≤ 2 * (g.workers.length * g.nodes.length) ∧
+      effSlices g short {} = short.length ∧ runSched g .star short {} = runSched g .star sched {} := by
+  refine ⟨effSub g sched {}, effSub_sublist g sched {}, ?_, effSlices_effSub g sched {}, runSched_effSub g sched {}⟩
+  rw [effSub_length]
+  have := star_effective_slices_bounded g sched
+  omega
+
+/-- **the exact number**: in every schedule the slices that do something are two per finished execution and one per
+execution still running; so a schedule that ends with all workers done has spent exactly `2·|executions|` slices on
+workers that were not done (all others were no-ops). -/
+theorem star_effective_slices_exact (g : Star) (sched : List Nat) :
+    effSlices g sched {} + busyC g (runSched g .star sched {}) = 2 * (runSched g .star sched {}).execs.length ∧
+    (allDone g (runSched g .star sched {}) = true →
+      effSlices g sched {} = 2 * (runSched g .star sched {}).execs.length) := by
+  have h := effSlices_exact (g := g) sched {} (pcCand_init g) (finDropped_init g)
+  rw [busyC_init] at h
+  simp only [List.length_nil, Nat.mul_zero, Nat.zero_add, Nat.add_zero] at h
+  refine ⟨by omega, fun hd => ?_⟩
+  have := busyC_allDone hd
+  omega
+
 /-- once every worker is done nothing happens any more: whatever slices follow, the state — executions included —
 stays the same -/
 theorem star_done_stable (g : Star) (pre ext : List Nat) (hd : allDone g (runSched g .star pre {}) = true) :
@@ -383,6 +419,16 @@ example : let g : Star := { workers := ["net1", "net2"],
                             nodes := [{ owner := 0, vms := ["vm1"], name := "t.vm1.net1", key := "t.vm1", params := [] },
                                       { owner := 1, vms := ["vm1"], name := "t.vm1.net2", key := "t.vm1", params := [] }] }
     allDone g (runSched g .star (List.replicate 40 0) {}) = false := by decide
+
+/-- termination needs no assumption on the names, the once-per-class theorems do: with worker ids of which one is a
+substring of the other (`net1`, `net11`: known finding `worker-id-substring-of-another`) the names are not well-formed,
+the fair schedule still ends done (by `star_terminates`), but `net1` has also executed the node parsed for `net11`. -/
+example : let g : Star := { workers := ["net1", "net11"],
+                            nodes := [{ owner := 0, vms := ["vm1"], name := "t.vm1.net1", key := "t.vm1", params := [] },
+                                      { owner := 1, vms := ["vm1"], name := "t.vm2.net11", key := "t.vm2", params := [] }] }
+    namesOk g = false ∧ relCount g 0 = 2 ∧ relCount g 1 = 1 ∧
+      allDone g (runSched g .star [0, 1, 0, 1, 0, 0] {}) = true ∧
+      (runSched g .star [0, 1, 0, 1, 0, 0] {}).execs = [(0, 0), (1, 1), (0, 1)] := by decide
 
 /-- **executions of a fairly scheduled step** — with well-formed names, under the assumption of `star_terminates`:
 every worker is done, every class of nodes that exists for a worker was executed by that worker exactly once, every
